@@ -619,8 +619,49 @@ def literal_path(ck):
             continue
         if isinstance(a, dict) and a.get("k") == "call" and (a.get("op") == "[]" or name_is(a.get("callee"), "at")) and any(is_this_field(x, PAT) for x in walk(a)):
             continue   # one character of the pattern
+        # a run whose escapes are resolved afterwards in one go: slice.replace("%%", "%")
+        resolved = False
+        while isinstance(a, dict) and a.get("k") == "call" and name_is(a.get("callee"), "replace") and isinstance(a.get("obj"), dict) and len([x for x in a.get("args", []) if x.get("k") != "defaultarg"]) == 2 \
+                and const_str(a["args"][0]) == "%%" and const_str(a["args"][1]) == "%":
+            resolved = True
+            a = skip_copies(a["obj"])
         slice_ = isinstance(a, dict) and a.get("k") == "call" and name_is(a.get("callee"), ("mid", "left", "right", "midRef", "leftRef", "rightRef", "sliced", "chopped")) and is_this_field(a.get("obj"), PAT)
-        if slice_:
+        if slice_ and resolved:
+            # the run may contain '%': its end must then be found with the escapes in mind. A search for the two-character needle "%{" is
+            # blind to them - in "a%%{x}" the "%{" it finds is the second half of the escape followed by a literal brace
+            def needle_of(y):
+                for z in walk(y):
+                    if is_call(z, ("indexOf",)) and z.get("args") and is_this_field(z.get("obj"), PAT):
+                        return const_str(z["args"][0]) if const_str(z["args"][0]) is not None else (chr(const_int(z["args"][0])) if const_int(z["args"][0]) is not None else None)
+                return None
+            ends = []
+            cut_ = a["args"][1] if name_is(a.get("callee"), ("mid", "midRef", "sliced")) and len(a.get("args", [])) >= 2 else (a["args"][0] if a.get("args") else None)
+            locs = [x for x in walk(cut_) if x.get("k") == "ref" and x.get("dk") == "local"] if isinstance(cut_, dict) else []
+            parity_checked = False
+            for x in locs:
+                _, var = local_var(pp, x["decl"])
+                vals = [var["init"]] if var and isinstance(var.get("init"), dict) else []
+                for r in refs_to(pp, x["decl"]):
+                    asg, rhs = assignment_target(pp, r)
+                    if asg is not None and rhs is not None:
+                        vals.append(rhs)
+                nd = [needle_of(v) for v in vals]
+                if any(n_ is not None for n_ in nd):
+                    ends += [n_ for n_ in nd if n_ is not None]
+                    # any look at the characters in front of the position found (pattern[next - 1], a backwards loop) may be a parity test
+                    for r in refs_to(pp, x["decl"]):
+                        par = pp.nodes.get(pp.parent.get(r["id"]))
+                        if isinstance(par, dict) and par.get("k") == "binop" and par.get("op") == "-" and const_int(par.get("rhs")) is not None:
+                            gp = pp.nodes.get(pp.parent.get(par["id"]))
+                            if isinstance(gp, dict) and gp.get("k") == "call" and (gp.get("op") == "[]" or name_is(gp.get("callee"), "at")):
+                                parity_checked = True
+            blind = [n_ for n_ in ends if len(n_) >= 2 and n_.startswith("%")]
+            if blind and not parity_checked:
+                ck.ob("C12-O2", sitestr(pp, tgt), False, "a run of pattern text is copied up to the next \"%s\" and its \"%%%%\" escapes resolved afterwards: the search does not know about the escape, so in \"a%%%%{x}\" the "
+                      "second '%%' and the brace are taken for a placeholder start" % blind[0], key="parsePattern|literal-slice")
+            else:
+                ck.ob("C12-O2", sitestr(pp, tgt), None, "the literal text receives %s (a run with its escapes resolved in bulk); the end of the run is not one this rule can judge" % describe(arg)[:60])
+        elif slice_:
             args = a.get("args", [])
             cut = None
             if name_is(a.get("callee"), ("mid", "midRef", "sliced")) and len(args) >= 2 and args[1].get("k") != "defaultarg":
